@@ -46,6 +46,14 @@ Definition rv_eqb (a b : rv) : bool :=
   | _, _ => false
   end.
 
+(* the keys an operation names (no operation can make any other key appear in the cache) *)
+Definition op_keys (o : op) : list K :=
+  match o with
+  | SetItem k _ | GetItem k | Get k _ | DelItem k | Pop k _ | SetDefault k _ | Contains k => [k]
+  | Update l | Ior l => map fst l
+  | _ => []
+  end.
+
 (* ---- methods and the lock-coverage table ---------------------------------- *)
 Inductive meth :=
 | MSetItem | MGetItem | MGet | MDelItem | MPop | MPopItem | MClear
